@@ -234,11 +234,14 @@ func runSCIONServer(ctx context.Context, log *slog.Logger, mtrcs *scionServerMet
 
 		srcAddr, ok := netip.AddrFromSlice(scionLayer.RawSrcAddr)
 		if !ok {
-			panic("unexpected IP address byte slice")
+			// host addresses of 8 or 12 bytes decode, but are no IP addresses
+			log.LogAttrs(ctx, slog.LevelInfo, "failed to decode packet", slog.String("cause", "unexpected source address"))
+			continue
 		}
 		dstAddr, ok := netip.AddrFromSlice(scionLayer.RawDstAddr)
 		if !ok {
-			panic("unexpected IP address byte slice")
+			log.LogAttrs(ctx, slog.LevelInfo, "failed to decode packet", slog.String("cause", "unexpected destination address"))
+			continue
 		}
 
 		if int(udpLayer.DstPort) != localHostPort {
